@@ -60,6 +60,7 @@ class Engine:
         self.loop_specs_used = set()
         self.frame_violations = []
         self.loop_extra = {}
+        self.default_loop = None
         self.allow_self_store = False
 
     # ================================================================= helpers
@@ -122,7 +123,8 @@ class Engine:
         if isinstance(v, (VSub,)):
             return t.app('VOpq', t.VAL, v.ident)
         if isinstance(v, (VParam,)):
-            return t.app('VOpq', t.VAL, v.ident)
+            c = self.models.param_const(self, v, st)
+            return t.ite(v.callable_t, t.app('VOpq', t.VAL, v.ident), self.to_dyn(c, st))
         if isinstance(v, (VFunc, VObj, VTuple, VClass, VExc)):
             return t.app('VOpq', t.VAL, fresh('opq', t.INT))
         raise OutOfReach('to_dyn(%r)' % (v,))
@@ -135,6 +137,12 @@ class Engine:
             return t.ite(v.t, t.ONE, t.ZERO), t.TRUE
         if isinstance(v, VDyn):
             return t.app('toint', t.INT, v.t), t.app('isint', t.BOOL, v.t)
+        if isinstance(v, VParam):
+            # a parameter object used as a value: its constant, provided it is not a callable
+            iv, ok = self.as_int(self.models.param_const(self, v, st), st)
+            if iv is None:
+                return None, t.FALSE
+            return iv, t.and_(ok, t.not_(v.callable_t))
         return None, t.FALSE
 
     def truth(self, v, st):
@@ -788,16 +796,36 @@ class Engine:
         return self.loop_ordinal, text
 
     def find_loop_spec(self, ordinal, text):
-        for key, spec in self.loops.items():
-            if key == text or key == (ordinal, text) or key == ordinal:
+        """loop specifications are keyed by the loop's text; when the text changed (an edit to the guard or the iterable)
+        the specification written for the loop at the same ordinal position and of the same kind is used, so that the
+        edit is judged against the invariant instead of falling out of reach"""
+        keys = list(self.loops)
+        for key in keys:
+            if key == text:
                 self.loop_specs_used.add(key)
-                return spec
+                return self.loops[key]
+        if ordinal <= len(keys):
+            key = keys[ordinal - 1]
+            if isinstance(key, str) and key.split(' ')[0] == text.split(' ')[0] and key not in self.loop_specs_used:
+                self.loop_specs_used.add(key)
+                return self.loops[key]
         return None
+
+    def can_unroll(self, n, st):
+        return False
 
     def s_While(self, n, st):
         ordinal, text = self.loop_key(n)
         spec = self.find_loop_spec(ordinal, text)
         if spec is None:
+            if self.default_loop is not None:
+                try:
+                    snapshot = st.clone()
+                    nob = len(self.obls)
+                    return self.unroll_while(n, st, text)
+                except OutOfReach:
+                    del self.obls[nob:]
+                    return self.invariant_loop(n, snapshot, self.default_loop, text, None)
             return self.unroll_while(n, st, text)
         return self.invariant_loop(n, st, spec, text, None)
 
@@ -838,6 +866,8 @@ class Engine:
                 raise OutOfReach('iteration over %r' % (itv,))
             if spec is None:
                 if it.what != 'concrete':
+                    if self.default_loop is not None:
+                        return self.invariant_loop(n, st1, self.default_loop, text, it)
                     raise OutOfReach('for-loop over a symbolic sequence needs an invariant: ' + text)
                 return self.unroll_for(n, st1, it)
             return self.invariant_loop(n, st1, spec, text, it)
@@ -890,6 +920,15 @@ class Engine:
         hview = LoopView(self, head, entry, kvar, nterm, self.loop_extra)
         for label, cond, *rest in spec.inv(hview):
             head.assume(cond)
+        # type stability of loop-carried locals of unknown type (checked like any invariant clause)
+        stable = []
+        for name, v0 in entry.env.items():
+            v1 = head.env.get(name)
+            if isinstance(v0, VDyn) and isinstance(v1, VDyn) and v0.t.smt() != v1.t.smt():
+                for tester in ('isint', '(_ is VBytes)', '(_ is VNone)', '(_ is VStr)', '(_ is VRef)'):
+                    if entry.known(t.app(tester, t.BOOL, v0.t)) is True:
+                        head.assume(t.app(tester, t.BOOL, v1.t))
+                        stable.append((name, tester))
         out = []
         # 3. evaluate guard
         if it is None:
@@ -925,6 +964,12 @@ class Engine:
                             v2 = LoopView(self, st2, entry, k2, nterm, self.loop_extra)
                             for label, cond, *rest in spec.inv(v2):
                                 self.emit(st2, '%s/loop[%s]/preserve/%s' % (fname, text, label), cond, kind='loop-preserve', tags=spec.tags)
+                            for name, tester in stable:
+                                vv = st2.env.get(name)
+                                goal = t.app(tester, t.BOOL, self.to_dyn(vv, st2)) if not isinstance(vv, (Unbound, MaybeBound)) else t.FALSE
+                                if isinstance(vv, VInt) and tester == 'isint':
+                                    goal = t.TRUE
+                                self.emit(st2, '%s/loop[%s]/preserve/type-of-%s' % (fname, text, name), goal, kind='loop-preserve', tags=spec.tags)
                             if var0 is not None:
                                 var2 = spec.variant(v2)
                                 self.emit(st2, '%s/loop[%s]/variant' % (fname, text), t.and_(t.ge(var0, t.ZERO), t.lt(var2, var0)),
